@@ -151,19 +151,104 @@ def _key(ctx: Ctx, prog, data, A, trim, sup, want) -> str:
     return f"ws-control:{','.join(feats)[:120]}:trim={trim}:suppress={'on' if sup else 'off'}"
 
 
+# --------------------------------------------------------------- suppression family
+
+
+def _bodies() -> list[list[Any]]:
+    from ..gen import model as M
+
+    return [
+        [M.Text(" \n ")],
+        [M.Assign("z", M.Filt(M.Lit(1)))],
+        [M.Text("\n  "), M.Assign("z", M.Filt(M.Lit(1))), M.Text(" ")],
+        [M.Out(M.Filt(M.Var("v")))],
+        [M.Text(" x ")],
+        [M.Comment("hash", " c ")],
+        [M.Raw("r")],
+        [M.Incr("c1")],
+        [M.Text(" "), M.Capture("cap1", [M.Text("q")]), M.Text("\n")],
+    ]
+
+
+def suppression_family(ctx: Ctx, spec: dict[str, Any]) -> None:
+    """Bounded-exhaustive nests of control-flow tags whose blocks are blank / non-blank in
+    every combination: with suppression on and off the outputs may differ in whitespace
+    only, and must equal the reference exactly."""
+    import copy as _copy
+
+    from ..gen import model as M
+
+    B = _bodies()
+    elses: list[Any] = [None, *B]
+    inners: list[Any] = []
+    for items in (M.Var("none"), M.Var("two")):
+        for b in B:
+            for e in elses:
+                inners.append(M.For("i", items, b, orelse=e))
+    for cond in (True, False):
+        for b in B:
+            for e in elses:
+                inners.append(M.If([(M.Truthy(M.Lit(cond)), b)], e))
+                inners.append(M.Case(M.Lit(1), [([M.Lit(1 if cond else 2)], b)], e))
+    def outers(inner: Any) -> list[list[Any]]:
+        return [
+            [inner],
+            [M.If([(M.Truthy(M.Lit(True)), [inner])], None)],
+            [M.For("o", M.Var("one"), [inner])],
+            [M.If([(M.Truthy(M.Lit(False)), [M.Text("n")])], [M.Text(" "), inner, M.Text("\n")], unless=False)],
+            [M.Case(M.Lit("k"), [([M.Lit("k")], [inner])], None)],
+            [M.If([(M.Truthy(M.Lit(True)), [M.If([(M.Truthy(M.Lit(True)), [inner])], None)])], None)],
+        ]
+    data = {"none": [], "one": [1], "two": [1, 2], "v": "V"}
+    n = 0
+    for inner in inners:
+        for body in outers(inner):
+            n += 1
+            if n % spec["n"] != spec["i"]:
+                continue
+            prog = M.Program([M.Text("<"), *_copy.deepcopy(body), M.Text(">")])
+            em = E.emit(prog, E.Layout(random.Random(1)))
+            outs = {}
+            for sup in (True, False):
+                exp = c01.ref_render(prog, ("+", sup, False), data)
+                got = c01.real_render(("+", sup, False), em.source, em.partials, data)
+                outs[sup] = got
+                ctx.ev()
+                ctx.count("suppression_family_renders")
+                if exp[0] == "ok" and got != exp:
+                    ctx.violation(
+                        "suppression-family:differs-from-reference:" + ",".join(sorted(c01.features(prog)))[:80],
+                        f"suppress={'on' if sup else 'off'} expected {exp[1]!r} got {got!r}",
+                        {"source": em.source, "partials": {}, "data": data, "cfg": ["+", sup, False],
+                         "base": [exp[0], exp[1]], "exact": True})
+            ctx.nt(em.source)
+            if outs[True][0] == "ok" and outs[False][0] == "ok" and strip_ws(outs[True][1]) != strip_ws(outs[False][1]):
+                ctx.violation(
+                    "suppression-removes-non-whitespace:" + ",".join(sorted(c01.features(prog)))[:80],
+                    f"on={outs[True][1]!r} off={outs[False][1]!r}",
+                    {"source": em.source, "partials": {}, "data": data, "cfg": ["+", True, False],
+                     "base": list(outs[False])})
+    ctx.count("suppression_family_programs", n // spec["n"])
+    ctx.sample({"kind": "suppression-family", "source": em.source, "on": outs[True], "off": outs[False]})
+
+
 def shards(tier: str, seed: int) -> list[dict[str, Any]]:
     n = 16
     per = 60 if tier == "quick" else 1500
-    return [{"kind": "gen", "i": i, "n": n, "per": per} for i in range(n)]
+    return [{"kind": "gen", "i": i, "n": n, "per": per} for i in range(n)] + [
+        {"kind": "suppress", "i": i, "n": 2} for i in range(2)]
 
 
 def floors(tier: str) -> dict[str, int]:
     k = 1 if tier == "quick" else 20
     return {"marker_assignments": 20000 * k, "programs_exhaustive": 100 * k, "suppression_pairs": 300 * k,
-            "verbatim_checks": 100 * k}
+            "verbatim_checks": 100 * k, "suppression_family_renders": 5000}
 
 
 def run_shard(spec: dict[str, Any], ctx: Ctx) -> None:
+    if spec["kind"] == "suppress":
+        suppression_family(ctx, spec)
+        return
     for j in range(spec["per"]):
         run_program(ctx, f"{spec['seed']}:{spec['i']}", j, spec["tier"])
 
